@@ -390,7 +390,12 @@ def replay(unit_name, inp, obligation=""):
             def dmg(h5):
                 del h5.attrs[key]
             return dmg
+        def short_index(h5):
+            del h5["events/index"]
+            h5["events/index"] = np.arange(1, 5)
+
         cases = [
+            ("index with one entry too few", False, short_index, "index"),
             ("index starting at 0", False, set_index(np.arange(0, 5)), "index"),
             ("index with a gap", False, set_index(np.array([1, 2, 4, 5, 6])), "index"),
             ("index 2..6", False, set_index(np.arange(2, 7)), "index"),
@@ -402,7 +407,11 @@ def replay(unit_name, inp, obligation=""):
             ("laser count contradicting the metadata", True, set_attr("fluorescence:laser count", 2), "laser count"),
         ]
         for name, fl, dmg, needle in cases:
-            viol = damaged("bad.rtdc", fl, dmg)
+            try:
+                viol = damaged("bad.rtdc", fl, dmg)
+            except Exception as ex:
+                return {"failed": True, "detail": f"{name}: the checker raises {type(ex).__name__}: {str(ex)[:100]} instead of "
+                                                  f"reporting a violation"}
             if not any(needle in v for v in viol):
                 return {"failed": True, "detail": f"{name}: no violation mentions '{needle}' (violations: {viol[:3]})"}
         # every image-like feature whose frame size contradicts the ROI is reported, one by one
